@@ -182,12 +182,26 @@ def make_module(vfs):
 
         def read_sfile_header(self):
             self._readable()
-            return self.f.header, len(self.f.header)
+            # the C++ reader reports the position in the file: a count of bytes, not of characters
+            return self.f.header, len(self.f.header.encode("utf-8"))
+
+        def _put(self, dst, i, src, r):
+            """one cell of one row: a binary file hands over the stored bytes as they are (whatever byte order the
+            reader was told), a text file the parsed value"""
+            if self.f.delim is None and isinstance(dst, symnp.SArr) and isinstance(src, symnp.SArr):
+                dst._check_writable()
+                dst.a[i] = src.a[r]
+            else:
+                dst[i] = src[r]
 
         def _table(self):
             t = self.f.table()
             if t is None:
                 raise RuntimeError("Error reading: file has no rows")
+            want = len(self.f.header.encode("utf-8"))
+            # (offset 0 on a file with a header is how the harnesses of the low-level reader say "rows only")
+            if self.f.header and not symx.is_sym(self.offset) and int(self.offset) not in (0, want):
+                raise ContractViolation("rows are read from byte offset %d although the header ends at byte %d" % (int(self.offset), want))
             return t
 
         def read_columns(self, data, colnums, rows):
@@ -216,7 +230,7 @@ def make_module(vfs):
             for c in cols:
                 nm = names[c]
                 for i, r in enumerate(rws):
-                    data[nm][i] = t[nm][r]
+                    self._put(data[nm], i, t[nm], r)
             return None
 
         def read_binary_slice(self, data, start, stop, step):
@@ -238,7 +252,7 @@ def make_module(vfs):
             t = self._table()
             for nm in self.dtype.names:
                 for i, r in enumerate(rws):
-                    data[nm][i] = t[nm][r]
+                    self._put(data[nm], i, t[nm], r)
             return None
 
         def close(self):
